@@ -60,13 +60,14 @@ def select_programs(tier):
                 ["in", f(B, "a"), [raw(1), raw(2)]], ["insub", f(B, "a"), IN_SUB], ["isnull", f(B, "a")],
                 ["between", f(B, "b"), raw(1), raw(3)], ["like", f(B, "s"), "a%"], ["insub", f(B, "a"), IN_SUB, "notin"],
                 ["logic", "AND", ["cmp", ">", f(B, "a"), raw(0)], ["logic", "OR", ["cmp", "<", f(B, "b"), raw(5)], ["not", ["cmp", "=", f(B, "s"), raw("x")]]]],
-                ["cmp", "=", ["cmp", ">", f(B, "a"), raw(1)], raw(True)]]
+                ["cmp", "=", ["cmp", ">", f(B, "a"), raw(1)], raw(True)],
+                ["in", f(B, "a"), [], True], ["not", ["in", f(B, "a"), []]], ["logic", "OR", ["in", f(B, "a"), []], ["isnull", ["in", f(B, "b"), []]]]]
 
     def orders(B):
         return [None, [(f(B, "a"), "asc"), (f(B, "id"), "asc")], [(["arith", "*", f(B, "b"), raw(2)], "desc"), (f(B, "id"), None)],
                 [("ALIAS", "asc"), (f(B, "id"), "asc")]]
 
-    lims = [[], [["limit", 2]], [["limit", 2], ["offset", 1]]]
+    lims = [[], [["limit", 2]], [["limit", 2], ["offset", 1]], [["offset", 2]]]
     if tier == "quick":
         frm, join = frm[:3], [join[0], join[1], join[2], join[6]]
     for (B, F), J in itertools.product(frm, join):
@@ -76,7 +77,7 @@ def select_programs(tier):
             B = "t"
         S, W, O = sels(B), wheres(B), orders(B)
         if tier == "quick":
-            S, W, O, L = [S[0], S[2], S[3], S[6], S[8], S[9], S[10]], [W[0], W[1], W[2], W[4], W[6], W[9]], O[:3] + O[3:], lims[:2] + lims[2:]
+            S, W, O, L = [S[0], S[2], S[3], S[6], S[8], S[9], S[10]], [W[0], W[1], W[2], W[4], W[6], W[9], W[11], W[13]], O[:3] + O[3:], lims
         else:
             L = lims
         for s, w, g, dist, o, l in itertools.product(S, W, [None, "col", "alias"], [False, True], O, L):
@@ -140,6 +141,7 @@ def setop_programs(tier):
     for o1 in ops:
         yield {"calls": a["calls"] + [[o1, b]], "opts": {"wrap_set_operation_queries": False}}
         yield {"calls": a["calls"] + [[o1, b], ["orderby", [f("t", "a")], "asc"], ["limit", 3]], "opts": {"wrap_set_operation_queries": False}}
+        yield {"calls": a["calls"] + [[o1, b], ["orderby", [f("t", "a")], "asc"], ["offset", 2]], "opts": {"wrap_set_operation_queries": False}}
         for o2 in ops:
             yield {"calls": a["calls"] + [[o1, b], [o2, c]], "opts": {"wrap_set_operation_queries": False}}
             yield {"calls": a["calls"] + [[o1, b], [o2, c], ["orderby", [f("t", "a")], "desc"], ["limit", 2], ["offset", 1]],
